@@ -57,6 +57,7 @@ type Env struct {
 	frObjs    []*Term
 	frLeaves  map[string][]*Term
 	frRefs    []*Term
+	frRefConds []*Term // parallel to frRefs: the array may be written only if this held at entry (nil: always)
 	key       string
 	noSplit   bool
 	fnPkg     string // package of the function under verification (invariants of its types are concrete)
